@@ -15,6 +15,8 @@ func vfServer() (*Server, *NodeNameSpace, *NodeNameSpace) {
 		handlers: make(map[uint16]Handler),
 		status:   &ua.ServerStatusDataType{State: ua.ServerStateRunning, BuildInfo: &ua.BuildInfo{}, ShutdownReason: &ua.LocalizedText{}},
 	}
+	// a started server always has at least one endpoint (initEndpoints)
+	s.endpoints = []*ua.EndpointDescription{{EndpointURL: "opc.tcp://h:4840", Server: &ua.ApplicationDescription{ApplicationURI: "urn:test", ApplicationName: &ua.LocalizedText{}}, SecurityPolicyURI: ua.SecurityPolicyURINone, SecurityMode: ua.MessageSecurityModeNone}}
 	ns0 := NewNodeNameSpace(s, "http://opcfoundation.org/UA/")
 	ns1 := NewNodeNameSpace(s, "urn:test")
 	s.initHandlers()
